@@ -124,7 +124,9 @@ def coq_make(targets, timeout=1800):
         coq_prepare()
         cmd = ["make", "-j%d" % NCPU] + targets
         t = time.time()
-        rc, out = sh(["timeout", str(timeout)] + cmd, timeout=timeout + 30, cwd=COQ)
+        # some Qed checks need a deep stack (the hard limit is unlimited in this sandbox)
+        rc, out = sh("ulimit -s unlimited 2>/dev/null || ulimit -s 1000000 2>/dev/null; exec timeout %d %s" % (timeout, " ".join(cmd)),
+                     timeout=timeout + 30, cwd=COQ)
         dt = time.time() - t
     return rc == 0, out, dt, "cd coq && " + " ".join(cmd)
 
